@@ -249,6 +249,15 @@ func generate(w *lib.Writer, r *lib.Rand, tier string) {
 			}
 			p.prelude = append(p.prelude, Step{Op: "maxn", How: "go.MaxN"}, Step{Op: "ipairs"})
 		}
+		if g.Chance(6) {
+			// end the history with a ForEach whose callback removes an element (Go-side check)
+			how := "last"
+			if g.Bool() {
+				how = "middle"
+			}
+			p.finale = []Step{{Op: "append", How: "go.Append", V: vp(tv.Int(1))}, {Op: "append", How: "go.Append", V: vp(tv.Int(2))},
+				{Op: "append", How: "go.Append", V: vp(tv.Int(3))}, {Op: "dumprm", How: how, I: int64(g.Range(1, 4))}}
+		}
 		runCase(w, in, class, g, p.next)
 	}
 }
